@@ -6,6 +6,8 @@ from .C09 import build
 
 def run(ctx):
     _run(ctx)
+    ctx.delegate("C18", ["C18.poly"], "C04.sizes",
+                 "entry i holds the content length of record i: the length announced for a shape is the number of bytes written for it", floor=13)
     ctx.delegate("C12", ["C12.retry"], "C04.retry",
                  "the .shx header still gets its length 50+4n when a finalize failed and is retried (or run by drop)", floor=4)
     ctx.delegate("C09", ["C09.ctor", "C09.W5"], "C04.commit",
